@@ -24,7 +24,8 @@ def op(name, **kw):
     return d
 
 
-AA, BW, BR, RES = 'AddAll', 'BatchWait', 'BatchRead', 'Result'
+AA, BW, BR, RES, B = 'AddAll', 'BatchWait', 'BatchRead', 'Result', 'Bind'
+MULTI = {'MC': 'MC_multi', 'Spec': 'SpecM', 'FairSpec': 'FairSpecM', 'Inv': ['C15_Fair', 'C17_Sum'], 'Props': ['C15_Choice', 'C14_BindKeepsState']}
 A, C, W, P, PW, R, S, RS, T, WS, PU, QC, WU, CC = 'Add', 'Close', 'Wait', 'Pause', 'PauseAndWait', 'Resume', 'Stop', 'Restart', 'TunePool', 'WaitAndStop', 'Purge', 'QClose', 'WUF', 'CancelCtx'
 
 # name -> (clients{name: [ops]}, constants overrides, tier)
@@ -58,11 +59,27 @@ CONFIGS = {
     'adapterfault': ({'c1': [op(A, job=1), op(A, job=2), op(WU)]}, {'QKind': 'pprio', 'Conc0': 2, 'Faults': [('enq', 1), ('deq', 0), ('ack', 1)]}, 'quick'),
     'crash': ({'c1': [op(A, job=1), op(A, job=2)]}, {'QKind': 'pfifo', 'Conc0': 1, 'MaxCrash': 1}, 'quick'),
     'crash2': ({'c1': [op(A, job=1), op(A, job=2)], 'ctl': [op(PW), op(R)]}, {'QKind': 'pfifo', 'Conc0': 2, 'MaxCrash': 1}, 'thorough'),
+    # several queues, strategies, binding as a client call
+    'multirr': ({'c1': [op(P), op(A, job=1), op(A, job=2), op(A, job=3), op(A, job=4), op(R), op(WU)]},
+                dict(MULTI, Jobs=[1, 2, 3, 4], QKinds=['fifo', 'fifo'], QOf={1: 1, 2: 2, 3: 1, 4: 2}), 'quick'),
+    'multirr2': ({'c1': [op(A, job=1), op(A, job=2), op(WU)], 'c2': [op(A, job=3), op(A, job=4)]},
+                 dict(MULTI, Jobs=[1, 2, 3, 4], QKinds=['fifo', 'prio', 'fifo'], QOf={1: 1, 2: 2, 3: 3, 4: 2}, Prio={1: 0, 2: 1, 3: 0, 4: 0}), 'thorough'),
+    'multimax': ({'c1': [op(A, job=1), op(A, job=2), op(A, job=3), op(WU)], 'x': [op(PU, n=2)]},
+                 dict(MULTI, Jobs=[1, 2, 3], QKinds=['fifo', 'fifo'], QOf={1: 1, 2: 2, 3: 2}, Strategy='max'), 'quick'),
+    'multimin': ({'c1': [op(P), op(A, job=1), op(A, job=2), op(A, job=3), op(R), op(WU)], 'c2': [op(A, job=4)]},
+                 dict(MULTI, Jobs=[1, 2, 3, 4], QKinds=['prio', 'fifo'], QOf={1: 1, 2: 2, 3: 2, 4: 1}, Strategy='min', Prio={1: 1, 2: 0, 3: 0, 4: 0}), 'thorough'),
+    'bind': ({'ctl': [op(B), op(A, job=1), op(P), op(B), op(A, job=2), op(R), op(WU)], 'c1': [op(A, job=3)]},
+             dict(MULTI, Jobs=[1, 2, 3], QKinds=['fifo', 'fifo'], QOf={1: 1, 2: 2, 3: 1}, NoBind=True), 'quick'),
+    'bindstop': ({'ctl': [op(S), op(B), op(A, job=1), op(S), op(B), op(A, job=2), op(RS), op(WU)]},
+                 dict(MULTI, Jobs=[1, 2], QKinds=['fifo', 'prio'], QOf={1: 1, 2: 2}, NoBind=True), 'thorough'),
+    'bindctx': ({'ctl': [op(B), op(A, job=1), op(B), op(WU)], 'x': [op(CC)]},
+                dict(MULTI, Jobs=[1], QKinds=['fifo', 'fifo'], QOf={1: 1}, NoBind=True, WithCtx=True), 'thorough'),
     'ratio': ({'c1': [op(A, job=1), op(A, job=2), op(A, job=3), op(WU)]}, {'Jobs': [1, 2, 3], 'Nodes': [1, 2, 3], 'PGSeq': ['pg1', 'pg2', 'pg3'], 'Conc0': 3, 'Ratio': 100}, 'thorough'),
 }
 
 DEFAULTS = {'Jobs': [1, 2], 'QKind': 'fifo', 'Nodes': [1, 2], 'DispSeq': ['disp1', 'disp2'], 'PGSeq': ['pg1', 'pg2'],
-            'Conc0': 1, 'Ratio': 0, 'Expiry': False, 'WithCtx': False, 'MaxGen': 1, 'WK': 'plain', 'Faults': [], 'MaxCrash': 0}
+            'Conc0': 1, 'Ratio': 0, 'Expiry': False, 'WithCtx': False, 'MaxGen': 1, 'WK': 'plain', 'Faults': [], 'MaxCrash': 0,
+            'QKinds': None, 'QOf': None, 'Strategy': 'rr', 'NoBind': False}
 
 SAFETY = ['TypeOK', 'NoViolation', 'C01_AtMostOnce', 'C01_NoRejected', 'C02_Bound', 'C09_PauseBound', 'C17_Bounds', 'C18_PoolBound', 'C18_IdleAtRest',
           'NodeOwnership', 'OneLoop', 'C08_CloseOnce', 'C08_Closes', 'C07_Metrics', 'C11_AckAfter', 'C11_AckIssued', 'C11_NoLoss', 'C11_Recovery', 'C03_NoStall', 'C06_Returns', 'C05_Returns']
@@ -76,10 +93,12 @@ def write_model(name, scratch, live=False, extra_invs=()):
     prio = k.get('Prio') or {j: 0 for j in jobs}
     outc = k.get('Outcome') or {}
     bof = k.get('BatchOf') or {}
+    qkinds = k.get('QKinds') or [k['QKind']]
+    qof = k.get('QOf') or {}
     mod = 'MCg_' + name
     progs = ' @@ '.join('("%s" :> %s)' % (c, tla_val(ops)) for c, ops in clients.items())
     txt = '''---- MODULE %s ----
-EXTENDS MC_core
+EXTENDS %s
 ProgG == %s
 PrioG == %s
 DispG == %s
@@ -87,16 +106,22 @@ PGG == %s
 OutG == %s
 BatchG == %s
 FaultsG == {%s}
+QKindsG == %s
+QOfG == %s
 ====
-''' % (mod, progs, ' @@ '.join('(%d :> %d)' % (j, prio[j]) for j in jobs), tla_val(k['DispSeq']), tla_val(k['PGSeq']),
-       ' @@ '.join('(%d :> "%s")' % (j, outc.get(j, 'ok')) for j in jobs), ' @@ '.join('(%d :> %d)' % (j, bof.get(j, 0)) for j in jobs), ', '.join('<<"%s", %d>>' % (a, b) for a, b in k['Faults']))
+''' % (mod, k.get('MC', 'MC_core'), progs, ' @@ '.join('(%d :> %d)' % (j, prio[j]) for j in jobs), tla_val(k['DispSeq']), tla_val(k['PGSeq']),
+       ' @@ '.join('(%d :> "%s")' % (j, outc.get(j, 'ok')) for j in jobs), ' @@ '.join('(%d :> %d)' % (j, bof.get(j, 0)) for j in jobs), ', '.join('<<"%s", %d>>' % (a, b) for a, b in k['Faults']),
+       tla_val(qkinds), ' @@ '.join('(%d :> %d)' % (j, qof.get(j, 1)) for j in jobs))
     cfg = '''SPECIFICATION %s
 CONSTANTS
  Clients = {%s}
  Prog <- ProgG
  Jobs = {%s}
  Prio <- PrioG
- QKind = "%s"
+ QKinds <- QKindsG
+ QOf <- QOfG
+ Strategy = "%s"
+ NoBind = %s
  Nodes = {%s}
  DispSeq <- DispG
  PGSeq <- PGG
@@ -111,12 +136,12 @@ CONSTANTS
  Faults <- FaultsG
  MaxCrash = %d
 CHECK_DEADLOCK FALSE
-''' % ('FairSpec' if live else 'Spec', ', '.join('"%s"' % c for c in clients), ', '.join(map(str, jobs)), k['QKind'],
+''' % (k.get('FairSpec', 'FairSpec') if live else k.get('Spec', 'Spec'), ', '.join('"%s"' % c for c in clients), ', '.join(map(str, jobs)), k['Strategy'], tla_val(bool(k['NoBind'])),
        ', '.join(map(str, k['Nodes'])), k['Conc0'], k['Ratio'], tla_val(k['Expiry']), tla_val(k['WithCtx']), k['MaxGen'], k['WK'], k['MaxCrash'])
     if live:
         cfg += 'PROPERTY C03_Live\n'
     else:
-        cfg += 'INVARIANTS ' + ' '.join(SAFETY + list(extra_invs)) + '\nPROPERTY C16_Forward\n'
+        cfg += 'INVARIANTS ' + ' '.join(SAFETY + list(k.get('Inv', [])) + list(extra_invs)) + '\nPROPERTY C16_Forward ' + ' '.join(k.get('Props', [])) + '\n'
     d = os.path.join(scratch, 'mc-' + name + ('-live' if live else ''))
     os.makedirs(d, exist_ok=True)
     open(os.path.join(d, mod + '.tla'), 'w').write(txt)
